@@ -581,6 +581,15 @@ def run_history(ctx, res, rng, hid, length, burst, pend):
             worc = wd.oracles(wn)
             wev = [ev_tuple(e) for e in wd.feed(wn)]
             pend["win"].append((rec_w, w.root, wn, worc, wev, [op_json(o) for o in ops], wd.last))
+            if not burst:
+                # the contract functions the theorems speak about, against the real events of this one operation
+                o0 = ops[0]
+                tgt = {"mkdir": o0[1], "rename": o0[2] if o0[0] == "rename" else None, "movein": o0[1]}.get(o0[0])
+                subs = []
+                if tgt is not None:
+                    ap = w.ap(tgt)
+                    subs = [[pw(tgt), tree_wire(read_tree(ap) if os.path.isdir(ap) else [[], []])]]
+                pend["con"].append((rec_w, w.root, fs_wire(fs_before), fs_wire(w.fs), op_wire(o0), subs, op_json(o0)))
             res.evaluations += 1
             for law, detail, extra in (check_step("windows", rec_w, w.root, before, after, ops, wev, kinds_at) if is_paced else []):
                 sig = make_sig("windows", law, "several-ops-per-batch" if burst else "one-op-per-batch", extra, wn)
@@ -615,6 +624,8 @@ def run_history(ctx, res, rng, hid, length, burst, pend):
             view0 = fd.view()
             fev = [ev_tuple(e) for e in fd.feed(fn)]
             pend["fse"].append((rec_f, w.root, view0, fn, forc, fev, fd.view(), [op_json(o) for o in ops]))
+            if not burst:
+                pend["con"][-1] = pend["con"][-1] + (wev, rec_f, fev)
             res.evaluations += 1
             for law, detail, extra in (check_step("fsevents", rec_f, w.root, before, after, ops, fev, kinds_at) if is_paced else []):
                 sig = make_sig("fsevents", law, "several-ops-per-batch" if burst else "one-op-per-batch", extra, fn)
@@ -776,6 +787,23 @@ def resolve(ctx, res, pend):
                                            str((mo, mv))[:600], str((fev, view1))[:600]))
 
 
+def resolve_contracts(ctx, res, pend):
+    """WinEmitter.win_contract / FsEvents.fse_contract (the specifications of C20_win_contract, C20_fsevents_contract)
+    rendered by the extracted model = the real events of every one-operation batch (recursive watches)."""
+    cases, metas = [], []
+    for rec_w, root, fb, fa, ow, subs, oj, wev, rec_f, fev in pend["con"]:
+        cases.append(sx([Atom("wincontract"), rec_w, root.encode(), fa, ow, subs]))
+        metas.append(("WinEmitter.win_contract vs WindowsApiEmitter.queue_events", oj, wev))
+        if rec_f:
+            cases.append(sx([Atom("fsecontract"), root.encode(), fb, fa, ow, subs]))
+            metas.append(("FsEvents.fse_contract vs FSEventsEmitter.queue_events", oj, fev))
+    for (pair, oj, real), out in zip(metas, core.run_model("platemit", cases)):
+        res.traces_validated += 1
+        mo = [model_ev(e) for e in out] if isinstance(out, list) and (not out or out[0] != "ERR") else out
+        if mo != real:
+            res.mismatches.append(Mismatch(pair, oj, str(mo)[:500], str(real)[:500]))
+
+
 def run_removed_self(ctx, res: Result):
     """The synthetic buffer winapi builds when the watched directory itself is deleted, end to end:
     _generate_observed_path_deleted_event -> _parse_event_buffer -> queue_events = DirDeletedEvent(root) + stop."""
@@ -821,7 +849,7 @@ def run(ctx, res: Result):
         if c.get("emitter"):
             replay(ctx, c, res, quiet=True)
     rng = ctx.rng("emit")
-    pend = {"apply": [], "kern": [], "win": [], "fse": []}
+    pend = {"apply": [], "kern": [], "win": [], "fse": [], "con": []}
     n_hist = 120 if not ctx.thorough else 1200
     n_burst = 40 if not ctx.thorough else 400
     for h in range(n_hist):
@@ -829,6 +857,7 @@ def run(ctx, res: Result):
     for h in range(n_burst):
         run_history(ctx, res, rng, h, rng.choice([4, 6, 8]), True, pend)
     resolve(ctx, res, pend)
+    resolve_contracts(ctx, res, pend)
     res.notes.append(f"emitters: {n_hist} one-op-per-batch histories and {n_burst} burst histories (2-3 operations per batch, "
                      "FSEvents batches coalesced per (item, path) with probability 1/2) over names {a,b,c,ab}, depth <= 4, executed on a "
                      "real scratch directory; Windows natives through read_events/_parse_event_buffer; non-trivial = a rename / "
